@@ -1,6 +1,7 @@
 import RasnModel.Basic.Sexp
 import RasnModel.Lexer.Values
 import RasnModel.Spec.Values
+import RasnModel.Link.Values
 /- line-protocol handler for C07 -/
 namespace Driver.C07
 open Sexp Lexer.Values
@@ -119,6 +120,85 @@ def handle : List Sexp → String
       let s := if spec.show == obsS then "ok" else "bad:expected_" ++ sanitize spec.show ++ "_got_" ++ sanitize obsS
       s!"model={m} spec={s}"
     | _, _ => "bad-request"
+  | _ => "bad-request"
+
+/-! ### composite values: the model of `link_with_type` (`Link/Values`) -/
+open Link.Values in
+def parseAtom : Sexp → Option Atom
+  | .list [.atom "int", n] => (asInt n).map .int
+  | .list [.atom "bool", b] => (asBool b).map .bool
+  | .atom "null" => some .null
+  | .list [.atom "octets", .list o] => (o.mapM asNat).map .octets
+  | .list [.atom "str", s] => (asText s).map fun t => .str (t.toUTF8.toList.map UInt8.toNat)
+  | .list [.atom "enum", n] => (asText n).map .enum
+  | _ => none
+
+open Link.Values in
+partial def parseSVal : Sexp → Option SVal
+  | .list [.atom "atom", a] => (parseAtom a).map .atom
+  | .list [.atom "braces", .list fs] => do
+      let fs ← fs.mapM fun f => match f with
+        | .list [.atom "none", v] => do pure (SField.mk none (← parseSVal v))
+        | .list [n, v] => do pure (SField.mk (some (← asText n)) (← parseSVal v))
+        | _ => none
+      pure (.braces fs)
+  | .list [.atom "choice", a, v] => do pure (.choice (← asText a) (← parseSVal v))
+  | _ => none
+
+open Link.Values in
+/-- a DEFAULT is written as notation in the request and linked with its member's type here, as the
+    linker does when it links the type -/
+partial def parseVTy : Sexp → Option VTy
+  | .atom "leaf" => some .leaf
+  | .list [.atom "seq", .list ms] => do
+      let ms ← ms.mapM fun m => match m with
+        | .list [n, t, d] => do
+            let ty ← parseVTy t
+            let dflt ← match d with
+              | .atom "none" => pure none
+              | .list [.atom "some", v] => do
+                  let sv ← parseSVal v
+                  let l ← link ty sv
+                  pure (some l)
+              | _ => none
+            pure (VMember.mk (← asText n) ty dflt)
+        | _ => none
+      pure (.seq ms)
+  | .list [.atom "seqof", e] => (parseVTy e).map .seqOf
+  | .list [.atom "choice", .list alts] => do
+      let alts ← alts.mapM fun a => match a with
+        | .list [n, t] => do pure (VAlt.mk (← asText n) (← parseVTy t))
+        | _ => none
+      pure (.choice alts)
+  | .list [.atom "named", n, t] => do pure (.named (← asText n) (← parseVTy t))
+  | _ => none
+
+open Link.Values in
+def showAtom : Atom → String
+  | .int n => s!"int:{n}" | .bool b => s!"bool:{b}" | .null => "null"
+  | .octets o => "octets:" ++ ",".intercalate (o.map toString)
+  | .str u => "str:" ++ hexOfBytes (u.map UInt8.ofNat)
+  | .enum n => "enum:" ++ n
+
+open Link.Values in
+/-- positional form (what `T::new(..)` shows): the names of a record are dropped -/
+partial def showAbs : Link.Values.AbsVal → String
+  | .atom a => showAtom a
+  | .record fs => "record(" ++ ";".intercalate (fs.map fun f => match f with | .mk _ v => showAbs v) ++ ")"
+  | .list xs => "list(" ++ ";".intercalate (xs.map showAbs) ++ ")"
+  | .choice a v => "choice:" ++ a ++ "(" ++ showAbs v ++ ")"
+
+/-- `c07link <type> <value notation> <observed abstract value>` ↦ `model=<agree|differ:..|nolink>` -/
+def handleLink : List Sexp → String
+  | [ty, v, obs] =>
+    match parseVTy ty, parseSVal v, parseAbs obs with
+    | some ty, some v, some obs =>
+      match Link.Values.link ty v with
+      | some l =>
+        let m := showAbs (Link.Values.absL l)
+        if m == obs.show then "model=agree" else "model=differ:" ++ sanitize m
+      | none => "model=nolink"
+    | _, _, _ => "bad-request"
   | _ => "bad-request"
 
 end Driver.C07
